@@ -479,7 +479,8 @@ var c20unknownYAML = strings.Replace(strings.Replace(c20failYAML, "partial{{inde
 var c20illTypedYAML = strings.Replace(c20failYAML, `'{"name": "partial{{index .source.users 99}}"}'`, `'{"name": {"nested": 5}}'`, 1)
 
 // c20namesYAML: two scenarios whose names and call names join to the same text (shop + cart_add,
-// shop_cart + add) and a metadata key that is called like the other rendered part of a call (payload).
+// shop_cart + add) and a metadata key that is called like the other rendered part of a call (payload);
+// the metadata templates use the other spellings of an action ({{ .x }}, {{- .x -}}, {{ printf .. }}).
 const c20namesYAML = `variable_sources:
   - name: users
     type: file/csv
@@ -492,8 +493,8 @@ calls:
     tag: t1
     call: target.TargetService.Hello
     metadata:
-      who: shop
-      payload: 'meta-{{.request.cart_add.preprocessor.u}}'
+      who: '{{ printf "%s" "shop" }}'
+      payload: 'meta-{{ .request.cart_add.preprocessor.u }}'
     payload: '{"name": "first-{{.request.cart_add.preprocessor.u}}"}'
     preprocessors:
       - type: prepare
@@ -503,8 +504,8 @@ calls:
     tag: t2
     call: target.TargetService.Hello
     metadata:
-      who: cart
-      payload: 'other-{{.request.add.preprocessor.u}}'
+      who: '{{- "cart" -}}'
+      payload: 'other-{{- .request.add.preprocessor.u -}}'
     payload: '{"name": "second-{{.request.add.preprocessor.u}}"}'
     preprocessors:
       - type: prepare
